@@ -140,6 +140,17 @@ func genDir(tape *sim.Tape, t *Tree, dir string, depth int, rich bool, counter *
 			exts = otherExts
 		}
 		name := fileName(tape, *counter, exts)
+		if i > 0 && tape.Draw(4) == 0 {
+			// same base name as the previous file, another type (a.css next to a.js)
+			prev := t.Entries[len(t.Entries)-1].Path
+			base := prev[strings.LastIndexByte(prev, '/')+1:]
+			if j := strings.LastIndexByte(base, '.'); j > 0 {
+				other := exts[tape.Draw(len(exts))]
+				if cand := base[:j] + "." + other; other != "" && other != base[j+1:] && t.Lookup(dir+"/"+cand) == nil {
+					name = cand
+				}
+			}
+		}
 		if rich && tape.Draw(8) == 0 {
 			name = "." + name // hidden file
 		}
@@ -412,6 +423,16 @@ func GenCase(tape *sim.Tape, crashBias bool) *Case {
 		t.Entries = append(t.Entries, Entry{Path: "src/lndir", Kind: KSymlink, Target: "../real"})
 		iv.Recursive = true
 		iv.Inputs, iv.Output = []string{"src/"}, "out/"
+	}
+	// explicit preserve options (only where no symlink semantics are involved)
+	hasLink := false
+	for _, e := range t.Entries {
+		if e.Kind == KSymlink || e.Kind == KHardlink {
+			hasLink = true
+		}
+	}
+	if !hasLink && tape.Draw(5) == 0 {
+		iv.Preserve = []string{"mode", "timestamps", "mode,timestamps", "all"}[tape.Draw(4)]
 	}
 	// minifier option flags (model mirrors them into the library options)
 	if tape.Draw(4) == 0 {
